@@ -4,6 +4,10 @@ import (
 	"fmt"
 	"go/ast"
 	"go/types"
+	"os"
+	"path/filepath"
+	"regexp"
+	"sort"
 	"strings"
 
 	"golang.org/x/tools/go/ssa"
@@ -352,3 +356,85 @@ func ruleFoldEvalAgreement(p *Program, r *Report) {
 }
 
 func init() { register("C08", Rule{"R08c", ruleFoldEvalAgreement}) }
+
+// R08g: the compiled grammar is the documented grammar.  syntax/arrai.wbnf is the grammar the documentation and
+// the precedence table refer to; the parser is compiled from a string literal in parser.go.  The two texts must be
+// the same modulo whitespace — an operator moved to another precedence level in one of them silently changes how
+// every unparenthesised program groups.
+func ruleGrammarMatchesDocumentedGrammar(p *Program, r *Report) {
+	r.Begin("R08g", "compiled grammar = documented grammar: the wbnf text the parser is compiled from (the string literal in syntax/parser.go) and syntax/arrai.wbnf are identical after whitespace normalisation, rule by rule — so the documented precedence and associativity are the ones the parser implements", 20)
+	defer r.End()
+	grammar, gpos := grammarText(p, r)
+	if grammar == "" {
+		return
+	}
+	docB, err := os.ReadFile(filepath.Join(p.Dir, "syntax", "arrai.wbnf"))
+	if err != nil {
+		r.Undecided("documented-grammar", "syntax/arrai.wbnf cannot be read: "+err.Error(), gpos)
+		return
+	}
+	ws := regexp.MustCompile(`\s+`)
+	norm := func(t string) string { return strings.TrimSpace(ws.ReplaceAllString(t, " ")) }
+	// rules: "name -> body;" — split on the rule heads at line starts
+	head := regexp.MustCompile(`(?m)^\s*([.A-Za-z_][A-Za-z0-9_]*)\s*->`)
+	split := func(t string) map[string]string {
+		out := map[string]string{}
+		idx := head.FindAllStringSubmatchIndex(t, -1)
+		for i, m := range idx {
+			end := len(t)
+			if i+1 < len(idx) {
+				end = idx[i+1][0]
+			}
+			name := t[m[2]:m[3]]
+			out[name] = norm(t[m[1]:end])
+		}
+		return out
+	}
+	a, b := split(grammar), split(strings.ReplaceAll(string(docB), "‵", "`"))
+	if len(a) < 10 || len(b) < 10 {
+		r.Undecided("rules", fmt.Sprintf("only %d / %d grammar rules recognised", len(a), len(b)), gpos)
+		return
+	}
+	var names []string
+	for n := range a {
+		names = append(names, n)
+	}
+	for n := range b {
+		if _, ok := a[n]; !ok {
+			names = append(names, n)
+		}
+	}
+	sort.Strings(names)
+	for _, n := range names {
+		ca, ina := a[n]
+		cb, inb := b[n]
+		switch {
+		case !ina:
+			r.Viol("rule@"+n, "the documented grammar has rule "+n+" but the compiled grammar does not", gpos)
+		case !inb:
+			r.Viol("rule@"+n, "the compiled grammar has rule "+n+" which syntax/arrai.wbnf does not document", gpos)
+		default:
+			at := 0
+			for at < len(ca) && at < len(cb) && ca[at] == cb[at] {
+				at++
+			}
+			lo := at - 30
+			if lo < 0 {
+				lo = 0
+			}
+			ctx := func(t string) string {
+				hi := at + 40
+				if hi > len(t) {
+					hi = len(t)
+				}
+				if lo > len(t) {
+					return ""
+				}
+				return t[lo:hi]
+			}
+			r.Check(ca == cb, "rule@"+n, "identical", fmt.Sprintf("grammar rule %s differs between the compiled parser and syntax/arrai.wbnf: programs are grouped by a precedence/associativity other than the documented one (compiled: …%s… documented: …%s…)", n, ctx(ca), ctx(cb)), gpos)
+		}
+	}
+}
+
+func init() { register("C08", Rule{"R08g", ruleGrammarMatchesDocumentedGrammar}) }
